@@ -180,6 +180,7 @@ class AudioIO(object):
     import pyaudio
     self._pa = pa = pyaudio.PyAudio()
     self._threads = []
+    self._exiting = [] # Threads that left the list above but might be alive
     self.wait = wait # Wait threads to finish at end (constructor parameter)
     self._recordings = []
 
@@ -239,6 +240,10 @@ class AudioIO(object):
             thread.stop()
           thread.join()
 
+        # Waits for the threads that had just removed themselves
+        for thread in self._exiting:
+          thread.join()
+
         # Closes all recording RecStream instances
         while self._recordings:
           recst = self._recordings[-1]
@@ -279,6 +284,8 @@ class AudioIO(object):
     """
     with self.lock:
       self._threads.remove(thread)
+      self._exiting = [th for th in self._exiting if th.is_alive()]
+      self._exiting.append(thread)
 
   def recording_finished(self, recst):
     """
